@@ -4,5 +4,5 @@ from props.common import corpus_check
 
 
 def run(ctx):
-    return corpus_check(ctx, "C03", lambda c: (oracles.c03_c04(c)[0], len(list(oracles.truth_decls(c.pkg)))),
+    return corpus_check(ctx, "C03", lambda c: (oracles.c03_c04(c)[0], len(list(oracles.truth_decls(c.pkg)))), l1_oracle=oracles.l1_c03,
                         nontrivial=lambda c: bool(c.pkg.inits[0].reexports) or any(m.path.split("/")[-1].startswith("_") for m in c.pkg.modules))
